@@ -4,9 +4,11 @@ key shares, real verifier over a beaconmock) must be a label the model accepts, 
 monitor that transcribes the property."""
 import collections
 import concurrent.futures
+import glob
 import json
 import os
 import re
+import shutil
 
 import vp
 
@@ -51,12 +53,13 @@ def main():
         "the harness's signing root is computed from the raw eth2 objects (domain constants, epoch, hash-tree-root) independently of core/eth2signeddata.go and eth2util/signing; SSZ hashing, the beacon mock's domain computation and herumi BLS are trusted",
     ]
     R.proofs()
-    n = 6000 if R.thorough else 1700
-    rc, out, od = vp.go_harness("sigagg", env_extra={"VERIF_N": n})
+    n = 6500 if R.thorough else 2000
+    rc, out, od = vp.go_harness("sigagg", outdir=os.path.join(vp.WORK, "sigagg_%d" % os.getpid()), env_extra={"VERIF_N": n})
     if rc != 0:
         R.broke("correspondence:harness sigagg failed to run", out[-3000:])
         R.finish()
     cs = json.load(open(os.path.join(od, "sigagg_cases.json")))
+    shutil.rmtree(od, ignore_errors=True)   # private output directory: concurrent runs of this check do not clobber each other
     R.coverage["evaluations"] = len(cs)
     seen = set()
     for c in cs:
@@ -65,7 +68,7 @@ def main():
     R.coverage["distinct_nontrivial"] = len(seen)
     R.coverage["rule"] = ("one evaluation = one call of sigagg.Aggregate on the real component (sigagg.New + sigagg.NewVerifier over beaconmock) with real tbls shares; "
                           "non-trivial = call whose batch contains at least one corrupted/irregular partial (wrong share's signature, wrong/out-of-range/zero/negative share index, other message, other domain, other fork, "
-                          "other validator's share, zero/truncated/random/infinity/foreign-key signature, bad length, too few, repeats with and without surplus, payload taken from a non-contributing partial, bare-signature objects, attestation ValidatorIndex variants), or whose context is cancelled before the call / right after the k-th verifier invocation (multi-validator batches with 0..2 bad validators at every placement, each repeated because Go's map order is random), or that is a call of a sequence served by ONE long-lived aggregator and verifier (same duty type at epochs in different forks of the beacon mock, both orders, signed for the own epoch's domain and with the other fork's domain); "
+                          "other validator's share, zero/truncated/random/infinity/foreign-key signature, bad length, too few, repeats with and without surplus, payload taken from a non-contributing partial, bare-signature objects, attestation ValidatorIndex variants), or whose context is cancelled before the call / right after the k-th verifier invocation (multi-validator batches with 0..2 bad validators at every placement, each repeated because Go's map order is random), or whose validators share one signing root and exchange partials across validators so that the errors cancel in a sum over validators (swaps at one/two/different share indices, cyclic shift among three, genuine partial +D / -D for a foreign point D), or that is a call of a sequence served by ONE long-lived aggregator and verifier (same duty type at epochs in different forks of the beacon mock, both orders, signed for the own epoch's domain and with the other fork's domain); "
                           "distinct by hash of (type, abstract label)")
     dist = collections.Counter()
     for c in cs:
@@ -88,6 +91,8 @@ def main():
         """A call of a sequence is replayed with all earlier calls of its sequence (same aggregator and verifier)."""
         rp = dict(spec_of(c), observed={"err": c["err_text"], "calls": c["calls"]}, label=c["label"],
                   how="./check C09 --replay <this file> rebuilds the batch(es) from the spec(s) and calls sigagg.Aggregate in /repo")
+        if not os.environ.get("VERIF_REPLAY"):
+            rp["hist_seed"], rp["hist_n"] = R.seed, n
         if c.get("seq"):
             rp["seq_specs"] = [spec_of(x) for x in allcs if x.get("seq") == c["seq"] and x["id"] <= c["id"]]
             rp["previous_calls"] = c.get("prev")
@@ -99,7 +104,9 @@ def main():
     cs = [c for c in cs if c["err"] != "EUnknown"]
     shards = list(vp.chunks(cs, 400))
     with concurrent.futures.ThreadPoolExecutor(max_workers=8) as ex:   # shards are independent coqc runs
-        results = list(ex.map(lambda a: vp.coq_eval("C09_%d" % a[0], cases_v(a[1])), enumerate(shards)))
+        results = list(ex.map(lambda a: vp.coq_eval("C09p%d_%d" % (os.getpid(), a[0]), cases_v(a[1])), enumerate(shards)))
+    for f in glob.glob(os.path.join(vp.COQ, "gen", "*cases_C09p%d_*" % os.getpid())) + glob.glob(os.path.join(vp.COQ, "gen", ".cases_C09p%d_*" % os.getpid())):
+        os.remove(f)
     for rc, out in results:
         if rc != 0:
             R.broke("correspondence:cases_C09 does not compile", out[-3000:])
